@@ -321,6 +321,8 @@ class Check(PropertyCheck):
                 ratio = rng.choice([1.0, 1.0 + 3e-6, 1.0 - 2e-6, 1.3, 3.0, 10.0, 100.0])
                 w = 2 * scale * rng.uniform(0.7, 1.4)
                 d = {'kind': 'ellipse', 'c': c, 'w': w, 'h': max(w / ratio, 2e-3), 'angle': G.rangle(rng), 'include': 'absent'}
+            # masks do not depend on the include flag (an excluded region has the same overlap weights)
+            d['include'] = rng.choice(['absent', 'absent', 'absent', 'false', '0', 'true'])
             if rng.random() < 0.2:
                 # the centre comes as numpy float32 scalars (float32-exact values, so every oracle sees the same centre)
                 d['c'] = [float(np.float32(d['c'][0])), float(np.float32(d['c'][1]))]
@@ -336,6 +338,8 @@ class Check(PropertyCheck):
         cases.append({'kind': 'exact/ellipse', 'pick': 2, 'on_corner': True,
                       'region': {'kind': 'ellipse', 'c': [0.5 - 0.6 / 1.3, 0.5 - 0.8 / 0.9], 'w': 2 / 1.3, 'h': 2 / 0.9,
                                  'angle': [0.0, 'deg'], 'include': 'absent'}})
+        cases.append({'kind': 'exact/ellipse', 'pick': 4, 'on_corner': True,
+                      'region': {'kind': 'ellipse', 'c': [0.0, 1.5], 'w': 2.5, 'h': 5.0, 'angle': [90.0, 'deg'], 'include': 'absent'}})
         for _ in range(14 if tier == 'quick' else 600):
             a, b, h = rng.choice([(3, 4, 5), (4, 3, 5), (5, 12, 13), (12, 5, 13), (8, 15, 17), (15, 8, 17), (7, 24, 25), (24, 7, 25),
                                   (20, 21, 29), (1, 0, 1), (0, 1, 1)])
@@ -404,6 +408,12 @@ class Check(PropertyCheck):
             reg.to_mask(mode='subpixels', subpixels=max(1, case['n'] // 2))
             m = reg.to_mask(mode='subpixels', subpixels=case['n'])
         else:
+            if case.get('pick', 0) % 2:
+                # an earlier mask of the same request was normalised IN PLACE by its owner (`w = mask.data; w /= w.sum()`),
+                # and an equal region asked for the same mask too: every call returns its own array
+                w0 = reg.to_mask(mode='exact').data
+                w0 *= 0.25
+                G.build(case['region']).to_mask(mode='exact').data[...] = -1.0
             m = reg.to_mask(mode='exact') if case.get('sub') is None else reg.to_mask(mode='exact', subpixels=case['sub'])
         data = np.asarray(m.data, dtype=float)
         b = m.bbox
@@ -490,8 +500,9 @@ class Check(PropertyCheck):
     def finding_match(self, finding, violation):
         # F3a / F3b: the `on`-vertex branches of overlap_area_triangle_unit_circle; only for an ellipse one of whose
         # pixel corners (a corner of the offending pixel when the violation names one) lies on the ellipse
-        if finding.get('kind') in ('ellipse_exact_on_vertex_low', 'ellipse_exact_on_vertex_high'):
-            return (violation.get('kind') in ('exact_value_wrong', 'exact_out_of_range', 'exact_sum_not_area', 'uncovered_not_zero', 'covered_not_one')
+        if finding.get('kind') in ('ellipse_exact_on_vertex_low', 'ellipse_exact_on_vertex_high', 'ellipse_exact_on_vertex_nan'):
+            return (violation.get('kind') in ('exact_value_wrong', 'exact_out_of_range', 'exact_sum_not_area', 'uncovered_not_zero', 'covered_not_one',
+                                              'exact_not_finite')
                     and violation.get('corner_on_ellipse') is True
                     and violation.get('sign') == finding['kind'].rsplit('_', 1)[1])
         return finding.get('kind') == violation.get('kind')
@@ -515,6 +526,14 @@ class Check(PropertyCheck):
             for (j, i, vb) in real['pixels']:
                 v = unbits(vb)
                 t = true_pixel_area(d, box[0] + i, box[2] + j)
+                if v != v or v in (float('inf'), float('-inf')):
+                    bad('exact_value_wrong', f'pixel ({box[0] + i},{box[2] + j}) value {v!r} true {float(t)!r}')
+                    V[-1]['sign'] = 'nan'
+                    V[-1]['pixel'] = [box[0] + i, box[2] + j]
+                    n_wrong += 1
+                    if d['kind'] != 'ellipse' or n_wrong >= 8:
+                        break
+                    continue
                 if abs(D(v) - t) > D('1e-8'):
                     bad('exact_value_wrong', f'pixel ({box[0] + i},{box[2] + j}) value {v!r} true {float(t)!r}')
                     V[-1]['sign'] = 'low' if D(v) < t else 'high'
@@ -535,9 +554,11 @@ class Check(PropertyCheck):
                     v['corner_on_ellipse'] = bool(on) if 'pixel' not in v else any(
                         abs(cx - v['pixel'][0]) <= 0.5 and abs(cy - v['pixel'][1]) <= 0.5 for (cx, cy) in on)
                     if v['kind'] == 'exact_sum_not_area':
-                        v['sign'] = 'low' if real['sum'] < real['area'] else 'high'
+                        v['sign'] = 'nan' if real['sum'] != real['sum'] else ('low' if real['sum'] < real['area'] else 'high')
                     elif v['kind'] == 'exact_out_of_range':
                         v['sign'] = 'high' if real['max'] > 1 else 'low'
+                    elif v['kind'] == 'exact_not_finite':
+                        v['sign'] = 'nan'
         else:
             n = case['n']
             samples = [(box[0] + i, box[2] + j, unbits(vb)) for (j, i, vb) in real['pixels']] + \
